@@ -220,7 +220,7 @@ def harnesses(tier):
         out.append(clones(t))
         if t.cmp_only:
             out.append(clones(t, mode="ieee"))
-    for t in cat.deep() + ([] if tier == "quick" else cat.slot()):
+    for t in cat.deep() + ([] if tier == "quick" else cat.slot()[::3]):
         out.append(clones(t, timeout=60 if tier == "quick" else 200))
     return out
 
